@@ -101,7 +101,7 @@ Qed.
 (** one iteration of the decoder on such a route followed by anything *)
 Lemma parse_vpn_step v6 withdraw f r lab rdb rest :
   wf_vroute v6 r -> length lab = 3%nat -> length rdb = 8%nat -> parse_rd rdb = Ok (PRd (v_rd r)) ->
-  (withdraw = false -> parse_labels (lab ++ rdb ++ firstn (N.to_nat (ceil8 (v_len r))) (be (abytes v6) (v_addr r)) ++ rest) = v_labels r) ->
+  (withdraw = false -> parse_labels (lab ++ rdb ++ firstn (N.to_nat (ceil8 (v_len r))) (be (abytes v6) (v_addr r))) = v_labels r) ->
   parse_vpn v6 withdraw (S f)
     (([v_len r + 88] ++ lab ++ rdb ++ firstn (N.to_nat (ceil8 (v_len r))) (be (abytes v6) (v_addr r))) ++ rest) =
   bind (parse_vpn v6 withdraw f rest) (fun t => Ok (expect_proute v6 withdraw r :: t)).
@@ -127,7 +127,10 @@ Proof.
   { rewrite Hd1. replace ([v_len r + 88] ++ lab ++ rdb ++ p ++ rest) with (([v_len r + 88] ++ lab ++ rdb ++ p) ++ rest)
       by (rewrite <- !app_assoc; reflexivity).
     apply skipn_app_len. rewrite !app_length, HlenL, Hlen, Hplen. cbn [length]. lia. }
-  assert (Hs4 : drop 1 d = lab ++ rdb ++ p ++ rest) by (rewrite Hd1; reflexivity).
+  assert (Hs4 : slice 1 (11 + k + 1) d = lab ++ rdb ++ p).
+  { rewrite Hd1. replace ([v_len r + 88] ++ lab ++ rdb ++ p ++ rest) with ([v_len r + 88] ++ (lab ++ rdb ++ p) ++ rest)
+      by (rewrite <- !app_assoc; reflexivity).
+    apply slice_app_mid; [reflexivity | rewrite !app_length, HlenL, Hlen, Hplen; lia]. }
   rewrite Hs1, Hs2, Hs3, Hs4, Hp. cbn [bind].
   assert (Haddr : (if v6 then of_int (unbe (pad_to 16 p))
                    else if Nat.ltb 4 (length p) then Exc else Ok (V4 (unbe (pad_to 4 p)))) = Ok (vaddr v6 (v_addr r))).
@@ -169,7 +172,7 @@ Proof.
     intros [|f] Hf; [lia|].
     rewrite parse_vpn_step; try assumption.
     + rewrite Hpt; [reflexivity|]. rewrite app_length in Hf. cbn [app length] in Hf. lia.
-    + intros E. apply (HpL E).
+    + intros E. rewrite <- (app_nil_r (rdb ++ _)). rewrite <- app_assoc. apply (HpL E).
 Qed.
 
 (** ---- MP_REACH_NLRI (1|2, 128) ---- *)
